@@ -78,7 +78,9 @@ def run(ctx):
             for st in b["stmts"]:
                 if st["k"] == "assign" and st["rv"]["k"] == "aggr" and st["rv"].get("agg") == "adt" \
                         and M.strip_generics(st["rv"]["adt"]) == "essential_vm::error::OpError" and st["rv"]["variant"] in ("Compute", "StateRead"):
-                    if f.path.endswith("OpError::from_infallible") or re.search(r"OpError<.*> as std::convert::From", f.path):
+                    # from_infallible itself holds the unreachable!() arms; the From<Infallible> impl cannot be called with a value.
+                    # Any other conversion that builds these variants (e.g. From<ComputeError>, reached through `?`) counts.
+                    if f.path.endswith("OpError::from_infallible") or re.search(r"OpError<.*> as std::convert::From<std::convert::Infallible>", f.path):
                         continue
                     bad.append((f, bb, st["rv"]["variant"]))
     ctx.ob("RV", "no-compute-or-stateread-error-in-infallible-families", not bad,
